@@ -75,6 +75,13 @@ type SCase struct {
 	Offline       []Change `json:"offline,omitempty"` //
 	Post2         []Change `json:"post2,omitempty"`   // changes after the reconnection
 	Faults        []Fault  `json:"faults,omitempty"`  // failing region saves on the follower
+	// Ex-leader follower: the follower was the PD leader before and kept its process, so its cache
+	// already holds regions built from TiKV heartbeats with raft term ExTerm (> 0). It holds the
+	// leader's initial regions number i with i % ExEvery == ExOff % ExEvery, at the initial epoch
+	// (so the leader's state is newer or equal in epoch), with another leader and other flow.
+	ExTerm  uint64 `json:"ex_term,omitempty"`
+	ExEvery int    `json:"ex_every,omitempty"`
+	ExOff   int    `json:"ex_off,omitempty"`
 }
 
 var sizeTable = []int{0, 1, 1, 2, 2, 99, 99, 100, 100, 100, 101, 101, 101, 199, 199, 200, 200, 201, 201, 250, 250, 250, 1000}
@@ -146,6 +153,11 @@ func genSync(t *rapid.T) SCase {
 		}
 		c.Offline = genChanges(t, "noffline", []int{0, 2, 2, 3, 5, 110})
 		c.Post2 = genChanges(t, "npost2", []int{0, 1, 3})
+	}
+	if rapid.IntRange(0, 2).Draw(t, "exLeader") == 0 {
+		c.ExTerm = rapid.SampledFrom([]uint64{1, 6, 100}).Draw(t, "exTerm")
+		c.ExEvery = rapid.SampledFrom([]int{1, 1, 2, 3}).Draw(t, "exEvery")
+		c.ExOff = rapid.IntRange(0, 2).Draw(t, "exOff")
 	}
 	if !c.RegionStorage && rapid.IntRange(0, 3).Draw(t, "faulty") != 0 {
 		phases := []string{"initial", "initial", "post", "post"}
@@ -702,6 +714,45 @@ type syncResult struct {
 	dropped      int // regions sent and later merged away on the leader (not compared)
 	saveFaults   int // region saves of the follower that were made to fail
 	staleStored  int // regions compared whose latest save on the follower failed
+	exLeader     int // regions the follower held from its time as leader (with a raft term)
+}
+
+// prefillExLeader fills the follower's cache the way a former leader's cache looks: regions built
+// from heartbeats (raft term > 0), same id/range/peers/epoch as the new leader's initial regions,
+// but with the leader on another voter and other flow statistics.
+func prefillExLeader(bc *core.BasicCluster, st *state, c SCase) int {
+	every := c.ExEvery
+	if every < 1 {
+		every = 1
+	}
+	n := 0
+	for i, r := range st.cur {
+		if i%every != c.ExOff%every {
+			continue
+		}
+		meta := r.info.Clone().GetMeta()
+		var voters []*metapb.Peer
+		pos := -1
+		for _, p := range meta.GetPeers() {
+			if p.GetRole() != metapb.PeerRole_Learner {
+				if r.info.GetLeader() != nil && p.GetId() == r.info.GetLeader().GetId() {
+					pos = len(voters)
+				}
+				voters = append(voters, p)
+			}
+		}
+		if len(voters) == 0 {
+			voters = meta.GetPeers()
+		}
+		old := core.RegionFromHeartbeat(&pdpb.RegionHeartbeatRequest{
+			Region: meta, Leader: voters[(pos+1)%len(voters)], Term: c.ExTerm,
+			BytesWritten: uint64(i) + 11, KeysWritten: uint64(i) + 12, BytesRead: uint64(i) + 13, KeysRead: uint64(i) + 14,
+			ApproximateSize: 10 << 20, ApproximateKeys: 1000,
+		})
+		bc.PutRegion(old)
+		n++
+	}
+	return n
 }
 
 func (r *syncResult) firstDiff(field string) string {
@@ -748,6 +799,9 @@ func execSync(c SCase, excludeKnown bool) (res syncResult) {
 	}
 	defer fx.close()
 	st := newState(fx.leaderSrv.bc, c.Regions)
+	if c.ExTerm > 0 {
+		res.exLeader = prefillExLeader(fx.followerSrv.bc, st, c)
+	}
 
 	report := func(chs []Change) int {
 		n := 0
@@ -993,6 +1047,7 @@ func runSync(c SCase) (vkit.Info, error) {
 	info.ClassIf(res.dropped > 0, "merged-away")
 	info.ClassIf(!c.RegionStorage, "follower-default-storage")
 	info.ClassIf(res.saveFaults > 0, "follower-save-fault")
+	info.ClassIf(res.exLeader > 0, fmt.Sprintf("ex-leader-follower-term=%d", c.ExTerm))
 	info.ClassIf(res.saveFaults > 1, "follower-save-faults>1")
 	info.ClassIf(res.staleStored > 0, "follower-storage-behind")
 	known := 0
@@ -1023,7 +1078,7 @@ func runSync(c SCase) (vkit.Info, error) {
 	h := fnv.New64a()
 	fmt.Fprintf(h, "%+v", c)
 	info.Sample = map[string]interface{}{"regions": n, "hist": c.HistIdx, "hist_plus_n": c.HistPlusN, "pre": len(c.Pre), "post": len(c.Post),
-		"reconnect": c.Reconnect, "offline": len(c.Offline), "post2": len(c.Post2), "region_storage": c.RegionStorage, "save_faults": res.saveFaults,
+		"reconnect": c.Reconnect, "offline": len(c.Offline), "post2": len(c.Post2), "region_storage": c.RegionStorage, "save_faults": res.saveFaults, "ex_leader_regions": res.exLeader, "ex_term": c.ExTerm,
 		"full_sync_batches": res.fullBatches, "regions_sent": res.sent, "with_leader": res.withLeader, "case_fnv64": fmt.Sprintf("%016x", h.Sum64())}
 	return info, nil
 }
